@@ -359,6 +359,9 @@ def dispatch (c : Ctx) (r : Row) (options : BitVec 32) (o0 o1 o2 o3 : Op) : Exce
       else if o0.rmSize != 2 && o0.rmSize != (if c.mode64 then 8 else 4) then .error .invalidInstruction
       else emitX86M c (opcode ||| (if o0.rmSize == 2 then kPP_66 else 0#32)) options opReg0 (memOf o0) 0 0
     else .error .invalidInstruction
+  | 0x2b =>                                                                       -- X86Lea
+    if isign3 == RM then emitX86M c (addPrefixBySize opcode o0.rmSize) options (r32 o0.id) (memOf o1) 0 0
+    else .error .invalidInstruction
   | 0x2c =>                                                                       -- X86Mov: general-purpose register / memory / immediate forms
     -- (segment / control / debug registers and the moffs `movabs` forms answer `unmodelled`)
     if isign3 == RR then
